@@ -91,7 +91,8 @@ TEMPLATES = [
     "import Reduino.Actuators as A\nq = A.Led(3)", "from Reduino.Sensors.Ultrasonic import Ultrasonic\nu3 = Ultrasonic(7, 8)", "from Reduino.Communication.SerialMonitor import SerialMonitor",
     "from Reduino.Actuators.DCMotor import DCMotor", "from Reduino.toolchain.pio import write_project", "from json import loads\nx = loads({H})", "import antigravity", "from Reduino.Actuators.Nope import Zip",
     # the hostile text inside a string literal (quoted annotations, names of things, texts): a string is data, never evaluated
-    "def qa(a: \"{H}\"):\n    return a\ny = qa(1)", "def qr(a) -> \"{H}\":\n    return a\ny = qr(1)", "x: \"{H}\" = 1", "def qb(a: \"int\", b: \"{H}\" = 2):\n    return a",
+    "def qa(a: \"{H}\"):\n    return a\ny = qa(1)", "def qr(a) -> \"{H}\":\n    return a\ny = qr(1)", "def qc(a: \"{H}\", b: \"{H}\"):\n    return a\ny = qc(1, 2)\nz = qc(1.5, 2)",
+    "def qd(a: '{H}'):\n    return a + 1\nmon.write(qd(2))", "def qe(a: \"{H}\") -> \"{H}\":\n    mon.write(a)\nqe(3)", "def qf(a: \"float\", b: \"{H}\"):\n    return a * 2\nw = qf(2, 1)", "x: \"{H}\" = 1", "def qb(a: \"int\", b: \"{H}\" = 2):\n    return a",
     "mon.write(\"{H}\")", "lcd.line(0, \"{H}\")", "bz.melody(\"{H}\")", "us = Ultrasonic(7, 8, sensor=\"{H}\")", "lcd.animate(\"{H}\", 0, \"{H}\")", "target(\"{H}\")", "s = \"{H}\"\nmon.write(s)",
     "lcd.line(0, 'x', align=\"{H}\")", "lcd.progress(0, 1, 2, style=\"{H}\")", "pin_mode(\"{H}\", 1)", "pot = Potentiometer(\"{H}\")",
     # collections with a non-finite / huge member handed over by name (the by-name path has its own screening)
